@@ -457,6 +457,7 @@ func execSim(op Op, env *Env) *Outcome {
 			out.CtxErr = ctx.Err()
 			if rdet != nil {
 				out.Races = rdet.reports()
+				out.Probes["race.accesses-checked"] += run.RaceAccesses()
 			}
 		})
 	}()
